@@ -705,3 +705,6 @@ def named_fee_explicit(ctx):
 
 from . import c08 as _c08
 PROP.obligation('C07.outputs-numbered')(_c08.outputs_numbered)
+
+
+PROP.obligation('C07.delete-keeps-spent')(_c08.delete_keeps_spent)
